@@ -159,7 +159,7 @@ def extract_inputs(trace, entry, harness_file=None):
             declared.add(mo.group(1))
             declared.add(mo.group(1) + '_s')
     for st in trace:
-        if st.get('stepType') != 'assignment':
+        if st.get('stepType') != 'assignment' or st.get('assignmentType') == 'actual-parameter':
             continue
         lhs = st.get('lhs', '')
         fn = st.get('sourceLocation', {}).get('function')
